@@ -30,9 +30,12 @@ OPN = {"new": 0, "copy": 1, "addf": 2, "addfs": 3, "adds": 4, "rm": 5, "rmfrom":
 RULE = ("histories over 1-3 live objects (AugmentedGraph and AugmentedPAG, also mixed), ordinary nodes 0..2 (+3 via add_node): "
         "ALL histories of length <=3 (quick) / <=4 (thorough; at length 4 at most 2 live objects) over the reduced alphabet "
         "{new, copy o, add_f_node o {0}|{1}|{0,1}, add_f_nodes_from o [{2},{0}], add_s_node o (1,2){0}|(2,3){1}, "
-        "remove_node o F#0|F#1|S#0, remove_nodes_from o [F#0]|[S#0], add_node o 3, add_edge o 0->1} after a `new`; then seeded random "
+        "remove_node o F#0|F#1|S#0, remove_nodes_from o [F#0] as list|generator, {S#0} as set, the F-registry's own keys() view, "
+        "add_node o 3, add_edge o 0->1} after a `new`, each history of length >=2 also with NO query before the last op (obs=last); then seeded random "
         "histories of length 20 (quick) / 120 (thorough) biased to remove-then-add, copy-then-mutate, second-object; plus the "
-        "Refuted.v witnesses. After every op every live object is observed. distinct by op list; non-trivial = at least one "
+        "Refuted.v witnesses and argument-kind witnesses. Iterable arguments are passed as list/set/frozenset/tuple/dict-keys/generator/filter/map/"
+        "registry key view (random stream: uniformly), same expected behaviour. After every op every live object is observed (so every op runs "
+        "on objects whose properties were just queried); 1 in 4 random histories observe only at the end. distinct by (op list, obs); non-trivial = at least one "
         "augmented node was created and the history contains a removal, a copy or a second object")
 EXHAUSTIVE = {"quick": "all histories of length <=3 over the reduced alphabet (both classes)",
               "thorough": "all histories of length <=4 over the reduced alphabet (both classes; length 4 with at most 2 live objects)"}
@@ -362,7 +365,8 @@ def compare(case, impl, model):
        independence:domains      `domains` of an object that was not operated on (or of a newly constructed one) differs
        independence:registries   any other observable of an object that was not operated on differs
        copy-faithful:<field>     the new copy differs from what the original was
-       registry:<field>@<op>     the object operated on differs"""
+       registry:<field>@<op>     the object operated on differs
+       final-state:<field>       obs=last histories (only the final state is observed)"""
     if isinstance(impl, dict):
         return "exception:" + impl.get("exc", "?")
     ops = case["ops"]
@@ -382,6 +386,8 @@ def compare(case, impl, model):
             if x == y:
                 continue
             field = next((f for f, (p, q) in zip(FIELDS, zip(x, y)) if p != q), "?")
+            if case.get("obs") == "last":
+                return "final-state:" + field
             if o == tgt:
                 return "registry:%s@%s" % (field, name)
             if name == "copy" and o == len(a[1]) - 1:
